@@ -27,7 +27,7 @@ ASSUMPTIONS = [
 ]
 MANIFEST = {'text': 'decides four recurring crash idioms exactly (which construct, which guard) and keeps a ledger of explicit panics; reports the count of panic-capable sites no rule speaks about so that green is not read as "cannot crash".'
                     ' Added: every integer division has a non-zero divisor (constant, guard, or field invariant over all writers); cursor/remaining-bytes parsers keep both in lockstep and read only behind a fresh `remaining >= size` test. Added: for every combination of type bits the renderer branch that indexes the raw value without its own length test is covered by the class the argument iterator validated the length for (exhaustive over the type bits of the two if-chains). Added: enum-indexed name tables cover the largest discriminant; the iterator\'s progress between two parse attempts is a parsed message or exactly one byte (termination of reading).',
-            'technique': 'static analysis: dominating-guard (deviance) rules, explicit-panic ledger, backward provenance for allocation sizes'}
+            'technique': 'static analysis: dominating-guard (deviance) rules, explicit-panic ledger, backward provenance for allocation sizes Added: the library changes the lifecycle table only through update / insert / empty (+ refresh), so every key the listers unwrap has a value.'}
 
 UNWRAP = ('std::option::Option::<T>::unwrap', 'std::option::Option::<T>::expect')
 GET = re.compile(r'core::slice::<impl \[T\]>::get$')
@@ -70,6 +70,8 @@ def run(F, chk):
     check_dispatch_agreement(F, B7)
     B8 = chk.rule('B8', 'fixed tables indexed by an enum value (`TABLE[kind as usize]`) have more entries than the largest discriminant of that enum')
     check_enum_indexed_tables(F, lib, B8)
+    B10 = chk.rule('B10', 'lifecycle table: the library changes the evmap only through update / insert / empty (+ refresh): every key keeps exactly one value or disappears - the listers unwrap get_one() of every key')
+    check_table_write_api(F, lib, B10)
     B9 = chk.rule('B9', 'termination of reading: between two parse attempts DltMessageIterator::next consumes exactly a parsed message or exactly one byte (never a computed amount that can be zero)')
     import c01
     from report import RuleResult
@@ -481,6 +483,31 @@ def counter_tested_nonzero(cfg, E, body, blk):
     if sts and all(('nz',) in st[1] for st in sts):
         return 'counter `%s` was tested non-zero on every path since its last write (%d path states)' % (body.name_of(x) or '_%d' % x, len(sts))
     return None
+
+
+TABLE_WRITE_OK = re.compile(r'^evmap::WriteHandle::<K, V, M, S>::(update|insert|empty|refresh|flush|publish|reserve|fit_all|pending|is_empty|len|contains_key|get|get_one|read|map_into|enter|clone|set_meta|meta|is_destroyed|deref)$')
+
+
+def check_table_write_api(F, lib, B10):
+    """"computing lifecycles and listing them": every lister (`get_sorted_lifecycles_as_vec`, the start of a further
+    detection run on the same table, the remote lifecycle info) does `get_one().unwrap()` for every key of the map.  That is
+    sound while every key has a value: `update` replaces the bag by one value, `insert` adds one, `empty` removes the key.
+    `clear(k)` keeps the key with an empty bag, `remove_value` / `retain` can empty a bag - the next listing panics."""
+    n = 0
+    unw = 0
+    for b in lib:
+        for blk in b.calls():
+            p = blk.term.callee.path
+            if p.startswith('evmap::WriteHandle::<') and blk.term.args and 'Lifecycle' in (blk.term.args[0].ty or ''):
+                n += 1
+                B10.sites += 1
+                B10.fn(b.path)
+                if TABLE_WRITE_OK.match(p):
+                    B10.ok(sample={'function': b.path, 'table_call': p.split('::')[-1], 'at': b.loc(blk.term.sp)})
+                else:
+                    B10.violation(('table-key-may-lose-its-value', b.closure_of or b.path, p.split('::')[-1]), '%s calls %s on the lifecycle table at %s: unlike update / insert / empty it can leave a key without a value, and every lister unwraps get_one() of every key (panic on listing)' %
+                                  (b.path, p.split('::')[-1], b.loc(blk.term.sp)), where=b.loc(blk.term.sp))
+    B10.floor('write-handle calls on the lifecycle table in the library', n, 4)
 
 
 def check_b3(lib, B3, anchor=None, ledger=None, floor_n=20, what='lifecycle/sort/control-message/argument-rendering code', select=None,
